@@ -444,8 +444,9 @@ def _normalize_python_version_specifier(marker: MarkerExpression) -> BaseSpecifi
         # skip this case, so in the following code value must be a dotted version string
         return marker.specifier
     splitted = [p.strip() for p in value.split(".")]
-    if len(splitted) > 2 and all(p == "0" for p in splitted[2:]):
-        # "3.8.0" (as re-rendered from a merged specifier) is the python_version "3.8"
+    if op != "~=" and len(splitted) > 2 and all(p == "0" for p in splitted[2:]):
+        # "3.8.0" (as re-rendered from a merged specifier) is the python_version "3.8";
+        # not for ~=, where the number of segments is part of the meaning
         splitted = splitted[:2]
     if len(splitted) > 2 or "*" in splitted:
         return marker.specifier
